@@ -323,6 +323,17 @@ func (e *c16env) runRow(res *verifrt.Result, idx int, row c16row) {
 			res.Hit("descendant-with-marker-2")
 		}
 	}
+	if modeOff && !markerFree {
+		// a process that carries a child marker (it is, or descends from, a sidecar):
+		// with mode off it too starts nothing and writes nothing
+		res.Hit("mode-off-with-marker")
+		if len(recs) > 1 {
+			res.Violate("off-launched:marked", fmt.Sprintf("row [%s]: mode off but %d further processes were started", row.String(), len(recs)-1), rp)
+		}
+		if d := diffSnap(before, after); d != "" {
+			res.Violate("off-wrote:marked", fmt.Sprintf("row [%s]: mode off but the telemetry directory changed: %s", row.String(), d), rp)
+		}
+	}
 	if modeOff && markerFree {
 		res.Hit("mode-off")
 		if len(recs) > 1 {
